@@ -400,15 +400,8 @@ def monitor(chk, lines, name="monitor"):
     r = tlc.run(chk.wd, "Trace_Legacy", cfg, workers=1, timeout=3000, env={"TRACE_FILE": str(f)}, heap="8g")
     chk.note_tlc(f"Trace_Legacy/{name}", r, "trace-validation")
     rej = {}
-    for ln in r.stdout.splitlines():
-        if ln.startswith('<<"REJECT"'):
-            parts = ln.split(",", 3)
-            import re
-            rej[int(parts[1])] = (parts[2].strip(' "'), set(re.findall(r'"([a-z\-]+)"', parts[3])))
-    if r.distinct - 1 != len(lines):
-        raise tlc.MachineryError(f"Trace_Legacy consumed {r.distinct - 1} of {len(lines)} lines\n" + r.stdout[-3000:])
-    if not r.ok and not rej:
-        raise tlc.MachineryError("Trace_Legacy failed without naming a line:\n" + r.stdout[-3000:])
+    for i, info in tlc.rejected(r, len(lines), "Trace_Legacy").items():
+        rej[i] = (info[0], set(info[1]))
     return rej
 
 
@@ -522,9 +515,11 @@ def finding_partial_attach(ln, outcome, clause):
     allowed: set = set()
     for a in args:
         _subtree(pre, a, allowed)
-    if op["op"] == "attach":
-        allowed.discard(f"h{op['a']}")      # the receiver itself must be untouched
-        allowed |= {x for v in pre[f"h{op['a']}"]["k"].values() for x in (v if isinstance(v, list) else [v]) if x != "none"}
+    if op["op"] in ("attach", "replace_with"):
+        # the receiver of attach / the argument of replace_with itself must be exactly as before; only nodes
+        # strictly below it may keep links / registrations
+        for a in args:
+            allowed.discard(a)
     for n, a in pre.items():
         b = post.get(n)
         if b is None:
